@@ -127,6 +127,9 @@ def check(chk):
         not any(isinstance(x, (ast.Assign, ast.AugAssign)) and any(src(t) in ('k1', 'k2') for t in (x.targets if isinstance(x, ast.Assign) else [x.target]))
                 for st in f.body[f.body.index(zero_py[0]) + 1:] if not isinstance(st, ast.If) for x in ast.walk(st))
     chk.judge(okz, 'C08.tail', f, 'Python: k1 = k2 = 0 after the block loop, before the tail', 'the tail registers are not reset after the block loop')
+    chk.judge(not cf['narrow_shifts'], 'C08.tail', (CMURMUR, 'MurmurHash3_x64_128', 0), 'C: no byte is shifted left by 24 bits or more before it is widened to 64 bits',
+              'integer promotion: %s is evaluated in int, a byte >= 0x80 lands in the sign bit and is sign-extended when widened - the block word (and the token) is wrong for keys of 16 bytes '
+              'or more containing such a byte' % cf['narrow_shifts'])
     chk.judge(cf['tail_type'] == ('int8_t', 'int8_t') and cf['data_type'] == ('int8_t', 'int8_t'), 'C08.tail', (CMURMUR, 'MurmurHash3_x64_128', 0), 'C: tail bytes read through int8_t* (signed)', 'C tail pointer type is %s' % (cf['tail_type'],))
     blk = [n for n in body_walk(bt) if isinstance(n, ast.Call) and src(n.func) == 'struct.unpack_from' and 'qq' in src(n.args[0])]
     ok = not bt_bad8
